@@ -191,6 +191,19 @@ def main():
     jobs.append(Job(P + 'VerifC19DeactivateGroup', (0,), cfg=cfg, max_paths=50000))
     jobs.append(Job(P + 'VerifC19Witness', (), witness=True, cfg=cfg))
     res = chk.run_jobs(jobs) + cres
+    chk.cleanup()
+    # the listing handlers (GroupMessageList / GroupMetadataList) end in getEntriesInRange / iterateOverEntries with the
+    # since / until ids of the request: every choice of them (nil, each entry, unknown id) on lists of 0..4 entries, no panic
+    from wesym.contracts import orbit as _orbit, seqchan as _seqchan
+    chk3 = c03.root_check('C19', ['C13/zz_verif_c13.go'], extra_installers=[_seqchan.install, _orbit.install_relay])
+    chk3.load([P + 'VerifC13Range', P + 'VerifC13Iterate', P + 'VerifC13Params'])
+    rj = []
+    for n in range(0, (4 if t == 'quick' else 6) + 1):
+        rj.append(Job(P + 'VerifC13Range', (n,)))
+        rj.append(Job(P + 'VerifC13Iterate', (n,)))
+    rj.append(Job(P + 'VerifC13Params', ()))
+    res += chk3.run_jobs(rj)
+    chk = chk3
     finish(chk, res, t,
            explanation='Symbolic execution of %d service handlers from their first instruction with an arbitrary request (every byte field nil or free '
                        'bytes of any length, strings/numbers/flags free, sub-messages nil or filled) in three service states (account group deactivated, '
@@ -198,7 +211,7 @@ def main():
                        '(nil dereference, index/slice bounds, explicit panic, failed type assertion) on any feasible path is a violation; handlers that '
                        'need the account group must answer its absence with an error.' % len(HANDLERS),
            bounds={'handlers': HANDLERS, 'service_states': '3 (state 0 = accountGroupCtx nil, the state service.deactivateGroup leaves behind: service_group.go sets s.accountGroupCtx = nil)', 'request_depth': 2,
-                   'decode_helpers': 'cryptoutil.AESGCMDecrypt/Encrypt, AESCTRStream, KeySliceToArray, NonceSliceToArray for key lengths {0,16,31,32} x data lengths listed in the job table (free contents)', 'activate_group': 'ActivateGroup for a free / known contact / known multi-member / account group id in the 3 states, up to the OrbitDB open (contract: error); DeactivateGroup with nothing open', 'outside': 'handlers that need IPFS/OrbitDB/libp2p/gRPC streams (the store opening inside ActivateGroup, closing open stores in DeactivateGroup, GroupMetadataList, GroupMessageList, GroupDeviceStatus, PeerList, Debug*, ServiceExportData, ReplicationServiceRegisterGroup, RefreshContactRequest, MultiMemberGroupCreate); requests after Close(); behaviour inside dependencies'},
+                   'decode_helpers': 'cryptoutil.AESGCMDecrypt/Encrypt, AESCTRStream, KeySliceToArray, NonceSliceToArray for key lengths {0,16,31,32} x data lengths listed in the job table (free contents)', 'listing_ranges': 'getEntriesInRange / iterateOverEntries / checkParametersConsistency for every since/until choice on lists of 0..4 (6) entries (the harness of C13)', 'activate_group': 'ActivateGroup for a free / known contact / known multi-member / account group id in the 3 states, up to the OrbitDB open (contract: error); DeactivateGroup with nothing open', 'outside': 'handlers that need IPFS/OrbitDB/libp2p/gRPC streams (the store opening inside ActivateGroup, closing open stores in DeactivateGroup, GroupMetadataList, GroupMessageList, GroupDeviceStatus, PeerList, Debug*, ServiceExportData, ReplicationServiceRegisterGroup, RefreshContactRequest, MultiMemberGroupCreate); requests after Close(); behaviour inside dependencies'},
            assumptions=['subsystems behind contracts return a value of their result type and do not panic', 'the VC issuer client is unreachable (returns an error)'],
            trusted=['go/ssa lowering', 'wesym interpreter + contracts', 'z3 5.1.0 (+cross-check)'])
 
